@@ -6,7 +6,7 @@ from .. import cutfind
 from ..core import call_real
 
 ID = "C07"
-LEAN_MODULE = "CKT.Props.C07Exp"
+LEAN_MODULE = "CKT.Props.C07Conn"
 THEOREMS = ["CKT.C07." + t for t in [
     "find_idx", "step_accounting", "path_accounting", "reachable_gamma", "multiqubitGates_idx_nodup", "export_overhead",
     "init_inv", "merge_inv", "newWire_inv", "step_inv", "path_inv", "reachable_width", "export_nonmarkers", "export_cuts_spec",
@@ -17,7 +17,9 @@ THEOREMS = ["CKT.C07." + t for t in [
     "init_cnt", "merge_cnt'", "newWire_cnt'", "step_cnt", "reachable_class_size",
     # T07.3 second half (Props/C07Exp): markers stand directly before the instruction they belong to
     "prefix_length", "step_spec", "fold_spec", "export_items_spec", "step_gate", "path_gates_sublist", "sortByGate_spec",
-    "reachable_export_items_spec"]]
+    "reachable_export_items_spec",
+    # T07.2 (Props/C07Conn): wires connected through applied (uncut) gates never number more than W
+    "trace_path", "path_trace", "path_all_inv", "trace_edges", "conn_same_root", "connected_wires_le_width"]]
 RULE = ("random circuits on 2-8 qubits with up to 10 instructions (two-qubit gates of every family, Move, one-qubit gates, partial and full "
         "barriers, occasionally a three-qubit gate), every width limit, all permitted-cut combinations, restricted and unrestricted search "
         "settings, invalid settings; exact comparison (instruction list, metadata, overhead, flag) on integer-kappa circuits with the seeded "
